@@ -224,12 +224,12 @@ func c19Gen(c *Ctx) {
 		cs["seed2"] = int64(c.Rng.Intn(1 << 30))
 		cs["nseq"] = int64(40)
 		cs["goroutines"] = int64([]int{2, 4, 8, 16}[i%4])
-		cs["ncalls"] = int64(c.N(25, 100))
+		cs["ncalls"] = int64(map[bool]int{false: 25, true: 100}[c.Thorough])
 		cs["reparse"] = int64(i % 2)
 		cs["decoded"] = int64((i / 2) % 2)
 		c19Eval(c, cs)
 	}
-	c19Eval(c, Case{"op": "pure", "path": "authenticode/testdata/test.pecoff", "seed2": int64(7), "nseq": int64(40), "goroutines": int64(8), "ncalls": int64(c.N(25, 100)), "reparse": int64(0), "decoded": int64(1)})
+	c19Eval(c, Case{"op": "pure", "path": "authenticode/testdata/test.pecoff", "seed2": int64(7), "nseq": int64(40), "goroutines": int64(8), "ncalls": int64(map[bool]int{false: 25, true: 100}[c.Thorough]), "reparse": int64(0), "decoded": int64(1)})
 }
 
 func init() {
